@@ -10,6 +10,26 @@ def optNat (o : Option Nat) : String := match o with | some n => toString n | no
 def showDT (x : DateTime) : String :=
   s!"{x.year.toNat} {x.month.toNat} {x.day.toNat} {x.hour.toNat} {x.minute.toNat} {x.second.toNat}"
 
+/-- Digest of everything the `dos.unpack` / `dos.totime` ops observe for one pair of words. -/
+def dosMix (h v : UInt64) : UInt64 := (h ^^^ v) * 0x100000001b3
+
+def dosDigestOne (h : UInt64) (d t : UInt16) : UInt64 :=
+  let x := DateTime.fromMsdos d t
+  let h := [x.year.toNat, x.month.toNat, x.day.toNat, x.hour.toNat, x.minute.toNat, x.second.toNat,
+            (match x.datepart with | some v => v.toNat | none => 0xFFFFFFFF), x.timepart.toNat].foldl
+    (fun h v => dosMix h (UInt64.ofNat v)) h
+  match x.toTime with
+  | none => dosMix h 0
+  | some c =>
+    [1, c.year.toNat, c.month, c.day, c.hour, c.minute, c.second].foldl (fun h v => dosMix h (UInt64.ofNat v)) h
+
+def dosBlock (byDate : Bool) (fixed lo : Nat) : Nat → UInt64 → UInt64
+  | 0, h => h
+  | n + 1, h =>
+    let w := UInt16.ofNat lo
+    let f := UInt16.ofNat fixed
+    dosBlock byDate fixed (lo + 1) n (if byDate then dosDigestOne h w f else dosDigestOne h f w)
+
 def opDos (op : String) (a : Args) : Option String := do
   match op with
   | "dos.unpack" =>
@@ -38,13 +58,27 @@ def opDos (op : String) (a : Args) : Option String := do
     let h ← a.nat? "h"; let mi ← a.nat? "mi"; let s ← a.nat? "s"
     let c : Cal := ⟨y, mo, d, h, mi, s⟩
     if !c.valid then some "invalid-cal" else
-    match DateTime.tryFromCal c with
+    -- the value's own UTC offset (seconds) and nanoseconds: parameters of the model's `OCal`
+    let o : OCal := ⟨c, (a.nat? "ns").getD 0, (a.int? "off").getD 0⟩
+    match DateTime.tryFromO o with
     | some x =>
-      let back := match x.toTime with
-        | some c' => if c' = c then "back=same" else "back=diff"
+      let back := match x.toTimeO with
+        | some o' =>
+          -- `shift` = instant of the result minus instant of the argument, in whole seconds: same wall-clock
+          -- fields read in UTC instead of in `offset`
+          (if o'.cal = c then "back=same" else "back=diff") ++
+            s!" off2={o'.offset} ns2={o'.nanos} shift={if o'.cal = c then o.offset - o'.offset else 0}"
         | none => "back=err"
       some s!"ok {showDT x} {back}"
     | none => some "err"
+  | "dos.dim" =>
+    let y ← a.int? "y"; let m ← a.nat? "m"
+    some s!"ok {Spec.Dos.daysInMonth y m} leap={if Spec.Dos.isLeap y then 1 else 0}"
+  | "dos.block" =>
+    let kind ← a.get? "kind"; let fixed ← a.nat? "fixed"; let lo ← a.nat? "lo"; let n ← a.nat? "n"
+    if lo + n > 65536 || fixed > 65535 || (kind != "date" && kind != "time") then none else
+    let h := dosBlock (kind == "date") fixed lo n 0xcbf29ce484222325
+    some s!"ok {h.toNat}"
   | _ => none
 
 end Driver
